@@ -285,6 +285,11 @@ def ops_from_log(case, obs):
     if hooked:
         conn_seen = set()
         early_q = set()
+        drawn = set()
+        bs_by_conn = {}
+        for e in log:
+            if e["e"] == "y:before-store" and idmap.get(e["k"]) is not None:
+                bs_by_conn.setdefault(e["c"], []).append((e["i"], idmap[e["k"]]))
         nabort = 0
         abort_of = {}      # conn -> aborter index of the current Abort
         for e in log:
@@ -294,14 +299,19 @@ def ops_from_log(case, obs):
                 op(["B", m])
                 state[m] = "begun"
             elif kind == "y:before-store" and m is not None:
-                if c in conn_seen:
-                    op(["G", m], ("G", c, i))
-                else:
-                    conn_seen.add(c)
-                    op(["D", m], ("D", c, i))
-                state[m] = "conn"
-                cur_conn[m] = c
-                at[(c, i)] = m
+                # concurrent callers reach the yield in any order; the counter was drawn in index order
+                for i2, m2 in sorted(bs_by_conn.get(c, [])):
+                    if i2 > i or m2 in drawn or state.get(m2) != "begun":
+                        continue
+                    drawn.add(m2)
+                    if c in conn_seen:
+                        op(["G", m2], ("G", c, i2))
+                    else:
+                        conn_seen.add(c)
+                        op(["D", m2], ("D", c, i2))
+                    state[m2] = "conn"
+                    cur_conn[m2] = c
+                    at[(c, i2)] = m2
             elif kind == "t:store" and m is not None:
                 op(["S", m])
                 state[m] = "stored"
@@ -680,6 +690,7 @@ def run(ctx):
 
 def evaluate(ctx, cases, byid):
     todo = []
+    early_hits = []
     env = 0
     for c in cases:
         o = byid[c["id"]]
@@ -688,13 +699,18 @@ def evaluate(ctx, cases, byid):
             continue
         if o.get("note") and not o.get("log"):
             continue
-        if any(e["e"] == "script-error" for e in o["log"]):
+        serr = [e for e in o["log"] if e["e"] == "script-error"]
+        if serr:
             ctx.bump("script_errors")
+            if any("no request of caller" in e.get("s", "") for e in serr):
+                # the peer was healthy and waiting, the caller had begun: its request never arrived
+                early_hits.append((c, o, "c10:request-not-delivered",
+                                   "%s: %s although the connection was healthy and the caller was waiting" % (c["transport"], serr[0]["s"]), ""))
             continue
         ops, shown = ops_from_log(c, o)
         todo.append((c, o, ops, shown))
     ran = run_model_expanding([ops for _, _, ops, _ in todo])
-    disagreements, hits = [], []
+    disagreements, hits = [], list(early_hits)
     prefix_jobs = []
     agree = 0
     for (c, o, _, shown), (line, out) in zip(todo, ran):
